@@ -15,7 +15,7 @@ import (
 // core.SameExpr, so two computations of the same pure expression are one leaf.
 type polyCtx struct {
 	leaves []ssa.Value
-	tr     func(ssa.Value) ssa.Value // optional: resolves a value to the one it stands for (parameters, single-store cells)
+	tr     func(ssa.Value) ssa.Value    // optional: resolves a value to the one it stands for (parameters, single-store cells)
 	env    func(ssa.Value) (poly, bool) // optional: values already known as polynomials (symbolic execution state)
 }
 
